@@ -84,16 +84,16 @@ def art1Update (L : α) (dim : Nat) (x w : List α) : List α :=
   let td := band' x (w.drop dim)
   smul (L / (L - 1 + vsum td)) td ++ td
 
-/-- new category: `w_td = x`, `w_bu = L / (L - 1 + dim) * x` (the code scales by
-the input width, not by `|x|`; recorded as finding F10). -/
-def art1New (L : α) (dimNum : α) (x : List α) : List α :=
-  smul (L / (L - 1 + dimNum)) x ++ x
+/-- new category: `w_td = x`, `w_bu = L / (L - 1 + |x|) * x` — the same rule as
+`update` with template `x` (repaired defect F10: the code scaled by the input width). -/
+def art1New (L : α) (x : List α) : List α :=
+  smul (L / (L - 1 + vsum x)) x ++ x
 
-def art1Kernel (L : α) (dim : Nat) (dimNum : α) : Kernel (List α) (List α) α α :=
+def art1Kernel (L : α) (dim : Nat) : Kernel (List α) (List α) α α :=
   { choice := fun _ x w => some (art1Choice dim x w)
     matchv := art1Match dim
     update := art1Update L dim
-    newW := art1New L dimNum }
+    newW := art1New L }
 
 /-! ### ART2-A  (Carpenter, Grossberg & Rosen 1991b) -/
 
